@@ -316,6 +316,12 @@ def run(ctx, rep):
     rule_edges(ctx, rep)
     rule_map(ctx, rep)
     rule_decl_edges(ctx, rep)
+    # the cycle check sees the whole unit: the sort runs once, on the joined library, first
+    from rules.c06 import rule_pipeline
+    rule_pipeline(ctx, rep, rid="R-C07-pipeline")
+    # state of the graph builder that is meant per declaration does not leak into the next one
+    from rules.c02 import rule_scope
+    rule_scope(ctx, rep, rid="R-C07-scope")
     # a node per *name*: the declaration graph's name->node maps must identify names the way the language does
     from rules.c08 import rule_keys
     rule_keys(ctx, rep, rid="R-C07-keys", files=("xform_toposort_declarations", "xform_resolve_late_bound_data_decl", "symbol_graph"), floor=3,
